@@ -47,6 +47,26 @@ pub fn instant_at(h: i32) -> Instant {
   }
 }
 
+impl Env {
+  /// break the reference cycles of a finished case (a subject holds its subscribers, whose closures may hold
+  /// clones of this Env and so of the subject again): otherwise every case leaks a little
+  pub fn teardown(&self) {
+    for h in &self.hot {
+      h.clone().unsubscribe();
+    }
+    for b in &self.beh {
+      b.clone().unsubscribe();
+    }
+    for s in &self.slots {
+      let hs: Vec<Subr> = std::mem::take(&mut *lock!(s));
+      for h in hs {
+        h.unsubscribe();
+      }
+    }
+    lock!(self.statuses).clear();
+  }
+}
+
 fn edge(e: Edge) -> ThrottleEdge {
   match e {
     Edge::Leading => ThrottleEdge::leading(),
@@ -440,6 +460,10 @@ pub fn exec_overlap(node: &Node, starts: &[u64], horizon: u64) -> Option<(Vec<Ve
     .map(|(i, p)| p.map(|p| p.recs().into_iter().map(|r| (r.vt.saturating_sub(starts[i]), r.ev)).collect()).unwrap_or_default())
     .collect();
   let c = lock!(env.counters).clone();
+  for s in subs.into_iter().flatten() {
+    s.unsubscribe();
+  }
+  env.teardown();
   Some((traces, c))
 }
 
@@ -498,6 +522,7 @@ pub fn exec_cold(node: &Node, n: usize, nested: bool) -> Option<ColdRun> {
     traces.push(probe.events());
   }
   let counters_end = lock!(env.counters).clone();
+  env.teardown();
   Some(ColdRun { counters_after_build, counters_end, traces, nested: nested_probe.map(|p| p.events()) })
 }
 
@@ -564,6 +589,7 @@ pub fn exec_group_by(hot: bool, script: &[Ev], key: KeyF) -> Vec<(i64, usize, Ev
     }
   }
   let r = lock!(log).clone();
+  env.teardown();
   r
 }
 
@@ -950,8 +976,15 @@ pub fn exec(case: &PCase, sample_closed: bool) -> Trace {
   tr.pending_timers_end = vtime::pending_timers();
   tr.status_flags = lock!(env.statuses).iter().map(|s| (s.is_completed(), s.error_occur())).collect();
   tr.requested = vtime::requested().iter().map(|d| as_ticks(*d)).collect();
-  std::mem::forget(guard); // a guard never dropped by the script must not unsubscribe behind our back
-  drop(sub);
+  // everything observable has been recorded: now tear the case down for real (unsubscribing breaks the
+  // reference cycles between composite subscriptions and the observers that hold them)
+  crate::stamp::set(usize::MAX - 1);
+  drop(guard);
+  if let Some(s) = sub.take() {
+    s.unsubscribe();
+  }
+  env.teardown();
+  crate::vtime::reset(conv_mode(case.mode));
   tr
 }
 
@@ -1318,5 +1351,10 @@ pub fn exec_share(src: &ShSrc, publish: bool, ops: &[ShOp]) -> ShareRun {
     run.after_step.push((subs_so_far, c.tap_calls, vtime::live_tasks()));
   }
   run.traces = probes.iter().map(|p| p.recs().into_iter().map(|r| (r.step, r.ev)).collect()).collect();
+  for s in subs.into_iter().flatten() {
+    s.unsubscribe();
+  }
+  drop(shared);
+  env.teardown();
   run
 }
